@@ -96,7 +96,7 @@ func mkLT(e *Env, g *Gen, diags []int, levelQ int, bsgs int) lintrans.LinearTran
 	sortInts(keys)
 	rqp := e.RLWE.RingQP().AtLevel(levelQ, e.RLWE.MaxLevelP())
 	for _, k := range keys {
-		g.FillPolyQP(rqp, lt.Vec[k])
+		g.FillPolyQP(&rqp, lt.Vec[k])
 	}
 	return lt
 }
@@ -227,13 +227,14 @@ func polynomialEvaluatorTarget() *Target {
 		return e.CKKS.DefaultScale()
 	}
 	mkPB := func(e *Env, g *Gen) polynomial.PowerBasis {
+		// genuine powers X, X^2, X^3 (with the scales the evaluator expects), computed by a private evaluator
 		pb := polynomial.NewPowerBasis(g.Ct(e, 1, e.MaxLevel()), bignum.Monomial)
-		x2 := g.Ct(e, 1, e.MaxLevel()-1)
-		x3 := g.Ct(e, 1, e.MaxLevel()-1)
-		if e.Scheme == "ckks" {
-			x2.Scale, x3.Scale = e.CKKSScale(40, 1), e.CKKSScale(40, 1)
+		ev := schemeEvaluator(e)
+		for _, n := range []int{2, 3} {
+			if err := pb.GenPower(n, false, ev); err != nil {
+				panic(err)
+			}
 		}
-		pb.Value[2], pb.Value[3] = x2, x3
 		return pb
 	}
 	t := &Target{
